@@ -558,6 +558,84 @@ func lenBucket(n int) string {
 // ---------------------------------------------------------------------------------------------
 // (a) correspondence
 
+// c11PubErrClass classifies the error of the PUBLIC jsontext.AppendQuote / AppendUnquote, which wrap the jsonwire
+// error in a *jsontext.SyntacticError.
+func c11PubErrClass(err error) string {
+	if err == nil {
+		return "ok"
+	}
+	var se *jsontext.SyntacticError
+	if errors.As(err, &se) && se.Err != nil {
+		return c11ErrClass(se.Err)
+	}
+	return "unwrapped:" + c11ErrClass(err)
+}
+
+var c11DstPrefix = []byte("\x00dst")
+
+// c11PublicUnquote: the exported jsontext.AppendUnquote, []byte and string instantiation, nil and non-empty dst,
+// against the model answer (`quote unq`).
+func c11PublicUnquote(c *Ctx, lit []byte, want string, local map[string]int64) {
+	type call struct {
+		name string
+		run  func(dst []byte) ([]byte, error)
+	}
+	calls := []call{
+		{"jsontext.AppendUnquote[[]byte]", func(dst []byte) ([]byte, error) { return jsontext.AppendUnquote(dst, bytes.Clone(lit)) }},
+		{"jsontext.AppendUnquote[string]", func(dst []byte) ([]byte, error) { return jsontext.AppendUnquote(dst, string(lit)) }},
+	}
+	for _, cl := range calls {
+		for _, dst := range [][]byte{nil, c11DstPrefix} {
+			var out []byte
+			var err error
+			if p := guard(func() { out, err = cl.run(bytes.Clone(dst)) }); p != nil {
+				c.Panic(cl.name, lit, p, nil)
+				continue
+			}
+			local["public."+cl.name]++
+			if !bytes.HasPrefix(out, dst) {
+				c.Violate("dst-clobbered", cl.name, lit, map[string]any{"out": hx(out), "dst": hx(dst)})
+				continue
+			}
+			if got := hx(out[len(dst):]) + " " + c11PubErrClass(err); got != want {
+				c.Violate("corr-unquote", cl.name, lit, map[string]any{"impl": got, "model": want, "dst": hx(dst)})
+			}
+			c.Case("pubunq|"+cl.name+"|"+string(lit), true)
+		}
+	}
+}
+
+// c11PublicQuote: the exported jsontext.AppendQuote (no escape flags), both instantiations, against `quote q 0 0 0`.
+func c11PublicQuote(c *Ctx, text []byte, want string, local map[string]int64) {
+	type call struct {
+		name string
+		run  func(dst []byte) ([]byte, error)
+	}
+	calls := []call{
+		{"jsontext.AppendQuote[[]byte]", func(dst []byte) ([]byte, error) { return jsontext.AppendQuote(dst, bytes.Clone(text)) }},
+		{"jsontext.AppendQuote[string]", func(dst []byte) ([]byte, error) { return jsontext.AppendQuote(dst, string(text)) }},
+	}
+	for _, cl := range calls {
+		for _, dst := range [][]byte{nil, c11DstPrefix} {
+			var out []byte
+			var err error
+			if p := guard(func() { out, err = cl.run(bytes.Clone(dst)) }); p != nil {
+				c.Panic(cl.name, text, p, nil)
+				continue
+			}
+			local["public."+cl.name]++
+			if !bytes.HasPrefix(out, dst) {
+				c.Violate("dst-clobbered", cl.name, text, map[string]any{"out": hx(out), "dst": hx(dst)})
+				continue
+			}
+			if got := hx(out[len(dst):]) + " " + c11PubErrClass(err); got != want {
+				c.Violate("corr-quote", cl.name, text, map[string]any{"impl": got, "model": want, "dst": hx(dst)})
+			}
+			c.Case("pubq|"+cl.name+"|"+string(text), true)
+		}
+	}
+}
+
 func c11CorrRaw(c *Ctx, st *c11Stats, raws [][]byte) {
 	flags := c11Flags(false)
 	c11Parallel(c, len(raws), 400, func(or *Oracle, lo, hi int) {
@@ -594,6 +672,9 @@ func c11CorrRaw(c *Ctx, st *c11Stats, raws [][]byte) {
 					c.Violate("corr-quote", "jsonwire.AppendQuote", s, map[string]any{"flags": f.String(), "impl": got, "model": ans[k]})
 				}
 				local["quote.err."+c11ErrClass(err)]++
+				if !f.html && !f.js && !f.allow {
+					c11PublicQuote(c, s, ans[k], local)
+				}
 				k++
 				c.Case("q|"+f.String()+"|"+string(s), need)
 			}
@@ -629,6 +710,7 @@ func c11CorrLit(c *Ctx, st *c11Stats, lits [][]byte) {
 			}
 			local["unquote.err."+c11ErrClass(err)]++
 			local["lit.len."+lenBucket(len(s))]++
+			c11PublicUnquote(c, s, ans[k], local)
 			k++
 			for _, validate := range []bool{false, true} {
 				var vf jsonwire.ValueFlags
@@ -1108,6 +1190,35 @@ func c11PredRaw(c *Ctx, paths []c11RawPath, lit []byte, local map[string]int64) 
 		local["literal.strict"]++
 	} else {
 		local["literal.only-with-AllowInvalidUTF8"]++
+	}
+	// the exported jsontext.AppendUnquote (both instantiations): the text with one U+FFFD per ill-formed byte / lone
+	// surrogate, and an error exactly when the literal is not strictly valid
+	for _, asString := range []bool{false, true} {
+		var out []byte
+		var err error
+		name := "jsontext.AppendUnquote[[]byte]"
+		if asString {
+			name = "jsontext.AppendUnquote[string]"
+		}
+		if pn := guard(func() {
+			if asString {
+				out, err = jsontext.AppendUnquote(nil, string(lit))
+			} else {
+				out, err = jsontext.AppendUnquote(nil, bytes.Clone(lit))
+			}
+		}); pn != nil {
+			c.Panic(name, lit, pn, nil)
+			continue
+		}
+		if !bytes.Equal(out, lossyMeaning) {
+			c.Violate("wrong-meaning", name, lit, map[string]any{"impl": hx(out), "want": hx(lossyMeaning), "err": fmt.Sprint(err)})
+		}
+		if (err != nil) != !strict {
+			c.Violate("invalid-utf8-error", name, lit, map[string]any{"impl": hx(out), "err": fmt.Sprint(err), "strict": strict})
+		}
+		if strict && !bytes.Equal(out, meaning) {
+			c.Violate("wrong-meaning", name+" vs RFC 8259 reference", lit, map[string]any{"impl": hx(out), "rfc8259": hx(meaning)})
+		}
 	}
 	for _, f := range c11Flags(true) {
 		if strict && f.allow && len(lit) > 8 {
